@@ -19,9 +19,10 @@ Mirrors, from the libxmp working tree:
 * one voice's whole tick (`voiceTick`): anticlick discharge, volume stage, the spans,
   end-of-sample ramp-out, `old_vl/old_vr/sleft/sright` update;
 * the tail of `process_volume` (src/player.c): channel volume, master / effects-mixer
-  volume by channel class — `playerVolTail` — *as the code is*: the test is
+  volume by channel class — `masterStage` — *as the code is*: on the pinned tree the test is
   `chn < mod.chn`, so background (NNA) voices, whose virtual channel number is
-  `≥ num_tracks ≥ mod.chn`, are scaled by `smix_vol` (finding F6);
+  `≥ num_tracks ≥ mod.chn`, are scaled by `smix_vol` (finding F6); the translator
+  regenerates `nnaRootRule` from the shape of that test;
 * the mute rule of `libxmp_virt_setvol` (src/virtual.c) — `virtSetVol`;
 * the tail of `process_pan` (src/player.c): `finalpan = (finalpan - 0x80) * mix / 100`
   with C's truncating division — `finalPan`, `voicePan`;
@@ -325,9 +326,17 @@ structure PlayerVol where
 /-- `finalvol = finalvol * get_channel_vol(ctx, chn) / 100` -/
 def chanVolStage (fv chanVol : Int) : Int := Int.tdiv (fv * chanVol) (chanVolDiv.getD 100)
 
-/-- `if (chn < m->mod.chn) finalvol = finalvol * p->master_vol / 100; else … p->smix_vol / 100` -/
-def masterStage (c : PlayerVol) (chn : Nat) (fv : Int) : Int :=
-  if chn < c.modChn then Int.tdiv (fv * c.masterVol) (masterDiv.getD 100)
+/-- Which volume scales virtual channel `chn` (root channel `root`): the music volume
+`master_vol` (`true`) or the effects-mixer volume `smix_vol`.  Pinned code: `chn < m->mod.chn`
+only (`nnaRootRule = false`, finding F6: background voices, `chn ≥ num_tracks`, get `smix_vol`);
+repaired code: also background voices whose root is a module channel.  `nnaRootRule` is
+regenerated from src/player.c on every run. -/
+def usesMaster (c : PlayerVol) (chn root : Nat) : Bool :=
+  decide (chn < c.modChn) || (nnaRootRule && decide (c.numTracks ≤ chn) && decide (root < c.modChn))
+
+/-- `if (…) finalvol = finalvol * p->master_vol / 100; else finalvol = finalvol * p->smix_vol / 100` -/
+def masterStage (c : PlayerVol) (chn root : Nat) (fv : Int) : Int :=
+  if usesMaster c chn root then Int.tdiv (fv * c.masterVol) (masterDiv.getD 100)
   else Int.tdiv (fv * c.smixVol) (smixDiv.getD 100)
 
 /-- `libxmp_virt_setvol`: `if (root < XMP_MAX_CHANNELS && p->channel_mute[root]) vol = 0` -/
@@ -336,7 +345,7 @@ def virtSetVol (muted : Nat → Bool) (root : Nat) (vol : Int) : Int :=
 
 /-- the voice volume `vi->vol` the player leaves for virtual channel `chn` with root `root` -/
 def voiceVol (c : PlayerVol) (muted : Nat → Bool) (chn root : Nat) (fv : Int) : Int :=
-  virtSetVol muted root (masterStage c chn fv)
+  virtSetVol muted root (masterStage c chn root fv)
 
 /-- `process_pan` tail: `finalpan` is the clamped 0..255 pan before separation. -/
 def finalPan (fp mix : Int) (mono surround : Bool) : Int :=
